@@ -168,6 +168,11 @@ def verify_function(eng, qualname, contract, make_args, max_paths=4000, fork_sli
                         return
                     if outcome[0] == "raise":
                         e = outcome[1]
+                        if not e.implicit and e.cls_name in contract.get("may_raise", ()):
+                            # an exception the contract allows without stating its condition (it belongs to an assumed callee)
+                            res.covers.setdefault(e.cls_name, 0)
+                            res.covers[e.cls_name] += 1
+                            return
                         if e.implicit or e.cls_name not in raises:
                             # must be infeasible: the obligation is  pc => False  (under the full path condition)
                             st, bk, dt, model = discharge(path.pc, False)
